@@ -42,8 +42,10 @@ func (s *BigramFilter) Filter(input analysis.TokenStream) analysis.TokenStream {
 		if tokout.Type == analysis.Ideographic {
 			runes := bytes.Runes(tokout.Term)
 			sofar := 0
-			for _, run := range runes {
-				rlen := utf8.RuneLen(run)
+			for range runes {
+				// width of the rune as encoded in the term: an invalid byte decodes
+				// to utf8.RuneError but occupies one byte, not utf8.RuneLen(RuneError)
+				_, rlen := utf8.DecodeRune(tokout.Term[sofar:])
 				token := &analysis.Token{
 					Term:         tokout.Term[sofar : sofar+rlen],
 					Start:        tokout.Start + sofar,
